@@ -282,7 +282,33 @@ def _proxy_hash(self):
         h = e.next_hid()
         object.__setattr__(self, "_hid", h)
         return h
+    if e is not None:
+        # concretisation by forking: enumerate the feasible values one by one (bounded); on each
+        # branch the value is fixed by the path condition, so dict/set lookups behave natively
+        return _concretize_hash(self, e)
     raise Unsupported(f"hash of symbolic {type(self).__name__}")
+
+
+CONCRETIZE_LIMIT = 24
+
+
+def _concretize_hash(x, eng):
+    for _ in range(CONCRETIZE_LIMIT):
+        m = eng.path_model()
+        if _isinstance(x, SymBool):
+            v = z3.is_true(m.eval(x.e, model_completion=True))
+            if eng.decide(x.e if v else z3.Not(x.e)):
+                return _hash(v)
+        elif _isinstance(x, SymInt):
+            mv = m.eval(x.e, model_completion=True)
+            v = mv.as_long()
+            if eng.decide(x.e == mv):
+                return _hash(v)
+        else:
+            v = concretize(x, m)
+            if eng.decide(_z3and(ceq(a, b) for a, b in zip(x.items, v))):
+                return _hash(v)
+    raise Unsupported(f"hash of symbolic {type(x).__name__} with more than {CONCRETIZE_LIMIT} feasible values")
 
 
 def char_in(v, cls):
